@@ -54,7 +54,7 @@ def integers(declared, span, rng):
     return xs
 
 
-def check_enum(E, declared, span, rng, report, count, where):
+def check_enum(E, declared, span, rng, report, count, where, others=()):
     """declared: {ordinal: python member name}.  report(mechanism, message, case)."""
     def snapshot():
         return ([(m.name, int(m)) for m in list(E)], list(E.__members__.keys()), len(E))
@@ -89,6 +89,35 @@ def check_enum(E, declared, span, rng, report, count, where):
                 where, n, x, isinstance(x, E), x == n, hash(x) == hash(n), int(x), getattr(x, "value", None), getattr(x, "name", None)), {"enum": where, "n": n})
         if not ok2:
             report("unrecognized-value-not-kept", "%s(%s(%d)) lost the value" % (where, where, n), {"enum": where, "n": n})
+    # integers that are not plain ints: bool, an int subclass, members / unrecognised values of another enum
+    class _MyInt(int):
+        pass
+    exotic = [True, False, _MyInt(7), _MyInt(-3), _MyInt(2 ** 40)]
+    if others:
+        for O in others[:2]:
+            try:
+                exotic += list(O)[:3] + [O(9), O(250), O(-1)]
+            except Exception:
+                pass
+    for v in exotic:
+        n = int(v)
+        count("constructions-checked")
+        count("non-plain-int-inputs")
+        try:
+            x = E(v)
+        except Exception as e:
+            report("construction-raises", "%s(%r) raised %r" % (where, v, e), {"enum": where, "n": n, "input_type": type(v).__name__})
+            continue
+        if n in declared:
+            if x is not getattr(E, declared[n], None):
+                report("declared-ordinal-not-member", "%s(%r) is %r, not the declared member %s" % (where, v, x, declared[n]), {"enum": where, "n": n})
+            continue
+        try:
+            ok = isinstance(x, E) and x == n and hash(x) == hash(n) and int(x) == n and x.value == n and x.name == "Unrecognized(%d)" % n
+        except Exception as e:
+            ok = False
+        if not ok:
+            report("unrecognized-value-not-kept", "%s(%r) [a %s equal to %d] -> %r named %r" % (where, v, type(v).__name__, n, x, getattr(x, "name", None)), {"enum": where, "n": n, "input_type": type(v).__name__})
     after = snapshot()
     count("membership-snapshots-compared")
     if after != before:
@@ -129,8 +158,9 @@ def run(shard, rec, tier, seed):
         from vf import stage
 
         ns = stage.shim()
-        for name, E, declared in hand_enums(ns.enum_meta.ProtocolEnumMeta):
-            check_enum(E, declared, shard["span"], rng, lambda m, msg, c: rec.violation(m, msg, c), count, "hand:" + name)
+        hs = hand_enums(ns.enum_meta.ProtocolEnumMeta)
+        for name, E, declared in hs:
+            check_enum(E, declared, shard["span"], rng, lambda m, msg, c: rec.violation(m, msg, c), count, "hand:" + name, [o[1] for o in hs if o[1] is not E])
             rec.case(None, n=shard["span"])
             rec.seen("enums", "hand:" + name + " (py%d.%d)" % sys.version_info[:2])
         rec.sample({"enum": "hand:Sparse", "declared": HAND["Sparse"], "example": "Sparse(3) -> Unrecognized(3)"})
@@ -163,6 +193,7 @@ def run(shard, rec, tier, seed):
                 if t.error is not None:
                     rec.count("base-spec-rejected-by-generator")
                     continue
+                all_enums = [t.bridge.top_class(n2) for n2, _d, _p in spec.enums()]
                 for name, decl, path in spec.enums():
                     E = t.bridge.top_class(name)
                     declared = {v[1]: ("None_" if v[0] == "None" else v[0]) for v in decl.values}
@@ -170,7 +201,7 @@ def run(shard, rec, tier, seed):
                     def report(m, msg, c, ti=ti, t=t):
                         c = dict(c, tree=ti, xml=t.files)
                         rec.violation(m, "tree %d: %s" % (ti, msg), c)
-                    check_enum(E, declared, shard["span"], rng, report, count, name)
+                    check_enum(E, declared, shard["span"], rng, report, count, name, [o for o in all_enums if o is not E])
                     rec.case(None, n=shard["span"])
                     rec.count("generated-enums")
                     rec.seen("underlying-types", decl.type)
@@ -189,6 +220,7 @@ if __name__ == "__main__":
         counters[name] = counters.get(name, 0) + n
 
     rng = random.Random("C14-311-%d" % seed)
-    for name, E, declared in hand_enums(ns.enum_meta.ProtocolEnumMeta):
-        check_enum(E, declared, span, rng, lambda m, msg, c: violations.append((m, msg, c)), count, "hand:" + name)
+    hs = hand_enums(ns.enum_meta.ProtocolEnumMeta)
+    for name, E, declared in hs:
+        check_enum(E, declared, span, rng, lambda m, msg, c: violations.append((m, msg, c)), count, "hand:" + name, [o[1] for o in hs if o[1] is not E])
     print(json.dumps({"counters": counters, "violations": violations[:20], "version": "%d.%d" % sys.version_info[:2]}))
